@@ -113,21 +113,16 @@ func VerifC04EntryNative() {
 // validating with the compiled profile, for every outcome of the stubbed stages.
 func VerifC09Equiv() {
 	data := "<<data text>>"
-	v.Scope("a")
+	// one profile text and one document: both runs meet the same stage outcomes
+	v.ScopeShared("a")
 	r1, e1, p1 := verifCall(1, nil, data)
-	v.Scope("b")
 	compiled, cerr := ProcessProfile(verifProfile, false, nil)
-	// same downstream outcomes in both runs
-	v.Assume(v.Flag("a.compile.err") == v.Flag("b.compile.err"))
 	if cerr != nil {
 		v.Reach("compile-failed")
 		v.Assert("C09.compile-error-eq", e1 != nil && !p1)
 		return
 	}
 	r2, e2, p2 := verifCall(3, compiled, data)
-	for _, f := range []string{"decode.err", "flatten.err", "eval.err", "eval.empty"} {
-		v.Assume(v.Flag("a."+f) == v.Flag("b."+f))
-	}
 	v.Reach("validated-both")
 	v.Assert("C09.compiled-eq-source.report", r1 == r2)
 	v.Assert("C09.compiled-eq-source.error", (e1 == nil) == (e2 == nil))
@@ -147,20 +142,29 @@ func VerifC09History() {
 	compiled, cerr := ProcessProfile(verifProfile, false, nil)
 	v.Assume(cerr == nil)
 	v.TrackWrites(true)
-	v.Scope("c1")
-	r1, e1, p1 := verifCall(3, compiled, "<<doc 1>>")
-	v.Scope("c2")
-	_, _, _ = verifCall(3, compiled, "<<doc 2>>")
-	v.Scope("c3")
-	r3, e3, p3 := verifCall(3, compiled, "<<doc 1>>")
-	v.TrackWrites(false)
-	for _, f := range []string{"decode.err", "flatten.err", "eval.err", "eval.empty"} {
-		v.Assume(v.Flag("c1."+f) == v.Flag("c3."+f))
+	// which calls see the same document: doc 1, doc 2, doc 1 | doc 1, doc 2, doc 2 (a retry) | doc 1, doc 1, doc 2
+	patterns := [][3]int{{1, 2, 1}, {1, 2, 2}, {1, 1, 2}}
+	pat := patterns[v.Choice("pattern", len(patterns))]
+	docs := map[int]string{1: "<<doc 1>>", 2: "<<doc 2>>"}
+	var r [3]string
+	var e [3]error
+	var p [3]bool
+	for k := 0; k < 3; k++ {
+		// the same document meets the same stage outcomes whenever it is validated
+		v.ScopeShared(fmt.Sprintf("d%d", pat[k]))
+		r[k], e[k], p[k] = verifCall(3, compiled, docs[pat[k]])
 	}
+	v.TrackWrites(false)
 	v.Reach("validated-3")
-	v.Assert("C09.step-independent.report", r1 == r3)
-	v.Assert("C09.step-independent.error", (e1 == nil) == (e3 == nil))
-	v.Assert("C09.step-independent.panic", p1 == p3)
+	for i := 0; i < 3; i++ {
+		for j := i + 1; j < 3; j++ {
+			if pat[i] == pat[j] {
+				v.Assert("C09.step-independent.report", r[i] == r[j])
+				v.Assert("C09.step-independent.error", (e[i] == nil) == (e[j] == nil))
+				v.Assert("C09.step-independent.panic", p[i] == p[j])
+			}
+		}
+	}
 	v.Assert("C09.frame-globals", v.GlobalWrites() == 0)
 }
 
@@ -190,26 +194,48 @@ func verifDocFor(scope string, good string) (string, bool) {
 // VerifC09HistoryNative replays a three-call history through one compiled profile with real
 // documents that provoke the recorded per-call outcomes.
 func VerifC09HistoryNative() {
-	good1 := `{"@id": "http://x/a", "@type": "http://a.ml/vocabularies/apiContract#EndPoint"}`
-	good2 := `{"@id": "http://x/b", "@type": "http://a.ml/vocabularies/apiContract#EndPoint", "http://a.ml/vocabularies/apiContract#path": "/p"}`
-	d1, ok1 := verifDocFor("c1", good1)
-	d2, ok2 := verifDocFor("c2", good2)
-	d3, ok3 := verifDocFor("c3", good1)
-	if !(ok1 && ok2 && ok3) {
-		fmt.Println("VERIF_NOT_REPRODUCIBLE evaluation faults cannot be provoked from outside")
-		return
+	good := map[int]string{
+		1: `{"@id": "http://x/a", "@type": "http://a.ml/vocabularies/apiContract#EndPoint"}`,
+		2: `{"@id": "http://x/b", "@type": "http://a.ml/vocabularies/apiContract#EndPoint", "http://a.ml/vocabularies/apiContract#path": "/p"}`,
+	}
+	patterns := [][3]int{{1, 2, 1}, {1, 2, 2}, {1, 1, 2}}
+	pat := patterns[0]
+	if _, asked := v.ReplayInput("pattern"); asked {
+		pat = patterns[v.ReplayInt("pattern")]
+	}
+	// each document is the witness of the stage outcomes recorded for the first call that saw it
+	docOf := map[int]string{}
+	for k := 0; k < 3; k++ {
+		if _, done := docOf[pat[k]]; done {
+			continue
+		}
+		d, ok := verifDocFor(fmt.Sprintf("d%d", pat[k]), good[pat[k]])
+		if !ok {
+			fmt.Println("VERIF_NOT_REPRODUCIBLE evaluation faults cannot be provoked from outside with this profile")
+			return
+		}
+		docOf[pat[k]] = d
 	}
 	compiled, cerr := ProcessProfile(verifProfile, false, nil)
 	if cerr != nil {
 		panic(cerr)
 	}
 	for attempt := 0; attempt < 10; attempt++ {
-		r1, e1, p1 := verifCall(3, compiled, d1)
-		_, _, _ = verifCall(3, compiled, d2)
-		r3, e3, p3 := verifCall(3, compiled, d3)
-		v.Assert("C09.step-independent.report", r1 == r3)
-		v.Assert("C09.step-independent.error", (e1 == nil) == (e3 == nil))
-		v.Assert("C09.step-independent.panic", p1 == p3)
+		var r [3]string
+		var e [3]error
+		var p [3]bool
+		for k := 0; k < 3; k++ {
+			r[k], e[k], p[k] = verifCall(3, compiled, docOf[pat[k]])
+		}
+		for i := 0; i < 3; i++ {
+			for j := i + 1; j < 3; j++ {
+				if pat[i] == pat[j] {
+					v.Assert("C09.step-independent.report", r[i] == r[j])
+					v.Assert("C09.step-independent.error", (e[i] == nil) == (e[j] == nil))
+					v.Assert("C09.step-independent.panic", p[i] == p[j])
+				}
+			}
+		}
 	}
 }
 
